@@ -342,9 +342,11 @@ def run(ck: Check) -> None:
             ck.violation("a value whose canonical serialization has a particular size is not stored as exactly that serialization / does not load back",
                          {"canonical_size": len(gen.oracle_bytes(v_)), "file_size": len(got_b)}, "sized-file")
             break
-    for suffix in (".json.bz2", ".json.gz", ".gz", ".bz2", ".zip", ".zst", ".xz", ".tmp", ".bak", ".json.partial", ".JSON", ""):
-        fn2 = os.path.join(d, "named" + suffix)
-        v_ = gen.envelope({"suffix": suffix, "n": [1, 2]})
+    for suffix in (".json.bz2", ".json.gz", ".gz", ".bz2", ".zip", ".zst", ".xz", ".tmp", ".bak", ".json.partial", ".JSON", "", "/4.root.json", "/10.root.json", "/0.root.json", "/2.key_mgr.json", "/root.json"):
+        fn2 = os.path.join(d, ("named" + suffix) if not suffix.startswith("/") else ("numbered" + suffix))
+        os.makedirs(os.path.dirname(fn2), exist_ok=True)
+        # (names as channels number their roots: what a file is called says nothing about — and need not agree with — what it holds)
+        v_ = gen.envelope({"suffix": suffix, "n": [1, 2]}) if not suffix.startswith("/") else gen.envelope(gen.root_md([gen.key(1)], 1, [gen.key(2)], 1, version=7))
         ck.evaluations += 1
         ck.oracle_checks += 1
         ck.count("suffixed-file")
